@@ -43,6 +43,25 @@ fn check_field(line: &[u8]) -> Option<String> {
         Ok(Err(e)) => Some(format!("{desc} expected={} actual={e:?}", if want.is_ok() { "accepted" } else { "MalformedHeader" })),
     }
 }
+/// several field lines in one head: the head is accepted iff every line is within the grammar, and then the fields are
+/// exactly the lines' fields in order -- a line is never folded into its neighbour, skipped or repaired
+fn check_fields(lines: &[&[u8]]) -> Option<String> {
+    let mut head = b"M / HTTP/1.1\r\n".to_vec();
+    for l in lines { head.extend_from_slice(l); head.extend_from_slice(b"\r\n"); }
+    head.extend_from_slice(b"\r\n");
+    let desc = format!("fields lines={}", lines.iter().map(|l| hex(l)).collect::<Vec<_>>().join(","));
+    let want: Result<Vec<(Vec<u8>, Vec<u8>)>, ()> = lines.iter().map(|l| ref_field(l)).collect();
+    match try_read(&head) {
+        Err(()) => Some(format!("{desc} expected={} actual=panic", if want.is_ok() { "accepted" } else { "MalformedHeader" })),
+        Ok(Ok(h)) => match want {
+            Err(()) => Some(format!("{desc} expected=MalformedHeader actual=accepted({:?})", h.headers)),
+            Ok(w) => { let got: Vec<(Vec<u8>, Vec<u8>)> = h.headers.iter().map(|x| (x.name.as_bytes().to_vec(), x.value.as_bytes().to_vec())).collect();
+                if got == w { None } else { Some(format!("{desc} expected={} fields in order actual={:?}", w.len(), h.headers)) } }
+        },
+        Ok(Err(HeadError::MalformedHeader)) => if want.is_err() { None } else { Some(format!("{desc} expected=accepted actual=MalformedHeader")) },
+        Ok(Err(e)) => Some(format!("{desc} expected={} actual={e:?}", if want.is_ok() { "accepted" } else { "MalformedHeader" })),
+    }
+}
 fn check_request(line: &[u8]) -> Option<String> {
     let mut head = line.to_vec(); head.extend_from_slice(b"\r\n\r\n");
     let desc = format!("request line={}", hex(line));
@@ -113,6 +132,11 @@ fn main() {
             let cuts: Vec<usize> = cs.split(',').filter_map(|x| x.trim().parse().ok()).collect();
             match check_stream(hi, &cuts) { Some(m) => { println!("WITNESS {m}"); std::process::exit(1) } None => { println!("OK witness no longer fails"); std::process::exit(0) } }
         }
+        if w.starts_with("fields ") {
+            let ls: Vec<Vec<u8>> = w.split("lines=").nth(1).unwrap().split(' ').next().unwrap().split(',').map(unhex).collect();
+            let refs: Vec<&[u8]> = ls.iter().map(|l| l.as_slice()).collect();
+            match check_fields(&refs) { Some(m) => { println!("WITNESS {m}"); std::process::exit(1) } None => { println!("OK witness no longer fails"); std::process::exit(0) } }
+        }
         let line = unhex(w.split("line=").nth(1).unwrap().split(' ').next().unwrap());
         let r = if w.starts_with("field") { check_field(&line) } else { check_request(&line) };
         match r { Some(m) => { println!("WITNESS {m}"); std::process::exit(1) } None => { println!("OK witness no longer fails"); std::process::exit(0) } }
@@ -138,6 +162,13 @@ fn main() {
                  b"GET http://x/ HTTP/1.1", b"GET / HTTP/1.0", b"GET / HTTP/2", b"GET /", b"GET", b"", b"GET / HTTP/1.1 x", b"G(T / HTTP/1.1", b"GET /\xff HTTP/1.1", b"GET /%zz HTTP/1.1"] {
         n += 1; if let Some(m) = check_request(line) { if found.len() < 6 { found.push(m) } }
     }
+    // two and three field lines: every pair from a pool of good and bad lines (leading blank, blank only, no colon, empty)
+    // (an empty line would end the head, so it is not in the pool)
+    let pool: [&[u8]; 13] = [b"a: 1", b"b:2", b"x-long: v w", b" a: 1", b"\ta: 1", b" ", b"\t", b" \t ", b"nocolon", b":v", b"a :1", b"a: \x80", b"A-b_c: ok "];
+    for l1 in pool { for l2 in pool {
+        n += 1; if let Some(m) = check_fields(&[l1, l2]) { if found.len() < 6 { found.push(m) } }
+        for l3 in [&b"z: 9"[..], b" cont"] { n += 1; if let Some(m) = check_fields(&[l1, l2, l3]) { if found.len() < 6 { found.push(m) } } }
+    }}
     // whole heads through read_http_head: unsplit, every 2-way split, byte at a time, and (thorough) every 3-way split
     for hi in 0..3usize {
         n += 1; if let Some(m) = check_stream(hi, &[]) { if found.len() < 6 { found.push(m) } }
